@@ -53,7 +53,7 @@ func c08Gen(r *rand.Rand, tier string, idx int) any {
 	p.SpanMs = []int{5, 40, 200, 1500}[r.IntN(4)]
 	if p.Cfg != "" && r.IntN(2) == 0 {
 		p.Phase = "est"
-		p.Mode = []string{"U", "U", "K", "R", "F"}[r.IntN(5)]
+		p.Mode = []string{"U", "U", "K", "R", "F", "C"}[r.IntN(6)]
 		p.N = 1 + r.IntN(40)
 		if p.Mode == "R" {
 			p.N = 50 + r.IntN(1000)
